@@ -102,7 +102,8 @@ def bound_dicts(rng, cfg, scale):
         # the order in which the caller happens to write the keys of a bound dictionary must not matter
         keys = list(ALLKEYS[blk])
         rng.shuffle(keys)
-        out[blk] = {key: scale * rng.uniform(0.1, 5.0) for key in keys}
+        wide = rng.random() < 0.2      # bounds many decades from unity (a log-space scatter bounded below by 1e-14)
+        out[blk] = {key: scale * (10 ** rng.uniform(-15, 3) if wide and rng.random() < 0.5 else rng.uniform(0.1, 5.0)) for key in keys}
     out["lens"]["gamma_pl_list"] = [scale * rng.uniform(1.5, 2.5) for _ in range(cfg["gamma_pl_num"])]
     npop = len(cfg["los_distributions"] or [])
     out["los"] = [{key: scale * rng.uniform(0.01, 1.0) for key in ("mean", "sigma", "xi")} for _ in range(npop)]
@@ -333,6 +334,9 @@ def run(ctx, res):
             continue
         nparam = pm0.num_param
         args = [rng.uniform(-1.5, 1.5) for _ in range(nparam)]
+        if rng.random() < 0.25:
+            # "all real-valued sampling vectors": components far from the origin too (log-space scatters of 1e-12, …)
+            args = [rng.choice([-1.0, 1.0]) * 10 ** rng.uniform(-3, 2.3) if rng.random() < 0.6 else a for a in args]
         kind = "valid"
         if mal and nparam > 0:
             if rng.random() < 0.5:
